@@ -5,4 +5,7 @@ import Lox.Table.Drv
 import Lox.LR.Drv
 import Lox.Lex.Drv
 import Lox.Dec.Drv
+import Lox.LR.Model
+import Lox.LR.Sugar
+import Lox.Lex.Model
 import Lox.Props.C15
